@@ -155,6 +155,14 @@ type genOpts struct {
 	PoolRegTwice bool
 	// Interval, when set, chooses c.Slot, Tx.TTL and Tx.Start (before fees are settled)
 	Interval func(rt *rapid.T, c *Case)
+	// MinOuts is the minimum number of outputs (default 1)
+	MinOuts int
+	// AfterInputs may add assets to the inputs before mint/outputs are derived
+	AfterInputs func(rt *rapid.T, c *Case)
+	// BeforeCoins may edit the outputs (and add collateral fields) after the
+	// consumed assets were distributed and before min-UTxO, fee and the coin
+	// remainder are settled; it must keep the reference balance of the assets
+	BeforeCoins func(rt *rapid.T, c *Case)
 }
 
 func genValidInterval(rt *rapid.T, c *Case) {
@@ -377,6 +385,9 @@ func genCase(rt *rapid.T, era Era, o genOpts) *Case {
 			}
 		}
 	}
+	if o.AfterInputs != nil {
+		o.AfterInputs(rt, c)
+	}
 	// mint / burn
 	if era >= Mary && !o.NoMint {
 		nm := rapid.IntRange(0, 2).Draw(rt, "nMint")
@@ -469,7 +480,7 @@ func genCase(rt *rapid.T, era Era, o genOpts) *Case {
 	}
 
 	// outputs: distribute what is consumed
-	nOut := rapid.IntRange(1, 3).Draw(rt, "nOut")
+	nOut := rapid.IntRange(max(1, o.MinOuts), 3).Draw(rt, "nOut")
 	for i := 0; i < nOut; i++ {
 		out := Out{}
 		if rapid.Bool().Draw(rt, "outBase") {
@@ -517,6 +528,9 @@ func genCase(rt *rapid.T, era Era, o genOpts) *Case {
 			}
 			tx.Outs[oi].V.Assets = append(tx.Outs[oi].V.Assets, AQ{id, part})
 		}
+	}
+	if o.BeforeCoins != nil {
+		o.BeforeCoins(rt, c)
 	}
 	// coins
 	c.Sink = rapid.IntRange(0, nOut-1).Draw(rt, "sink")
